@@ -85,7 +85,7 @@ pub fn spec(id: &str) -> Option<PropSpec> {
             id: "C33",
             scenario: "ddl",
             label: 33,
-            runs_quick: 20000,
+            runs_quick: 8000,
             runs_thorough: 300000,
             level: "exploration",
             rule: "each run = one seeded history of CREATE/DROP TABLE, CREATE/DROP INDEX, ALTER TABLE (ADD/DROP/CHANGE COLUMN, RENAME TO, ADD/DROP CONSTRAINT), INSERT/UPDATE/DELETE and index-driven probes over a pool of 3 table, 7 column and 4 index names written in random identifier case; an evaluation is one comparison after a step (catalog vs storage vs accepted-statement model listing, declared vs stored columns, row arity, queryability, index registries vs existing objects, index contents vs the same CREATE INDEX on the current rows, constraint hash indexes vs rebuild, retained-column data across ALTER, probe with vs without index scans); non-trivial = >=1 accepted statement and >=1 comparison; distinct = distinct hash of (operation kinds, outcome classes, reach probes)",
